@@ -55,6 +55,7 @@ type cconn struct {
 	bcloseStep   int
 	cclosed      bool // client closed
 	ackMode      string
+	ackDup       bool
 	ackDelay     time.Duration
 	connectOp    *OpRec
 	connack      *mqttc.Packet
@@ -401,6 +402,15 @@ func (c *cconn) ackLater(w *World, p *mqttc.Packet) {
 		return
 	}
 	c.send(w, p, nil, 0)
+	if c.ackDup && (p.Type == mqttc.PUBACK || p.Type == mqttc.PUBCOMP) {
+		// a client that acknowledges a packet identifier nobody uses (far from every identifier in use). A repeated
+		// acknowledgement of a real identifier is not generated: the broker may have re-used the identifier by the
+		// time it arrives and legitimately counts it for the new message, which no oracle can tell apart.
+		if w.netRng.IntN(3) == 0 {
+			w.Faults["client.ack_stray"]++
+			c.send(w, &mqttc.Packet{Type: mqttc.PUBACK, PID: p.PID + 20000}, nil, 0)
+		}
+	}
 }
 
 // onPacket is the scripted client's reaction to a packet from the broker.
@@ -823,6 +833,7 @@ func (w *World) connect(cl *cli, o *OpRec) {
 	c.c = simnet.NewConn(w.S, id, name)
 	c.parser.Ver = ver
 	c.ackMode = op.Ack
+	c.ackDup = op.AckDup
 	c.ackDelay = op.AckDelay.D()
 	prev := cl.conn
 	w.conns = append(w.conns, c)
